@@ -566,6 +566,10 @@ pub fn check_run(case: &Case, run: &Run, model: &mut Option<ModelProc>, anomalie
             return Some(Finding { key: "threads:maps-inconsistent".into(), what: "keys() / query_with / len() agree at quiescence (no phantom key, no lost key, no empty posting)".into(), expected: "consistent".into(), observed: e, model: false });
         }
     };
+    // 1b. a unique index holds exactly one id per key, whatever raced (single, array or batch operations)
+    if case.unique && let Some(bad) = fin.split(';').find(|e| e.contains(',')) {
+        return Some(Finding { key: "threads:unique-violated".into(), what: "unique index: one id per key at quiescence".into(), expected: "one id per key".into(), observed: bad.to_string(), model: false });
+    }
     // 2. ownership: what a flush serialises now is everything
     let log: RefCell<Vec<Wr>> = RefCell::new(Vec::new());
     let fr = block_on(run.idx.flush_owned_with(
